@@ -324,6 +324,9 @@ PYDANTIC_CONFIG_DEFAULTS = {"extra": "ignore", "frozen": False, "str_strip_white
                             "validate_assignment": False, "from_attributes": False, "populate_by_name": False, "strict": False,
                             "arbitrary_types_allowed": False, "use_enum_values": False, "validate_default": False, "revalidate_instances": "never",
                             "coerce_numbers_to_str": False, "protected_namespaces": ("model_",)}
+# special methods that change how instances compare, hash, test true, iterate or are built: part of a model's declaration
+PROTOCOL_METHODS = {"__eq__", "__ne__", "__hash__", "__len__", "__bool__", "__iter__", "__getitem__", "__contains__", "__lt__", "__le__",
+                    "__gt__", "__ge__", "__getattr__", "__setattr__", "__init__", "model_post_init", "__post_init__", "__new__"}
 CONSTRAINT_KEYS = ("ge", "gt", "le", "lt", "min_length", "max_length", "min_items", "max_items", "pattern", "regex", "multiple_of", "strict",
                    "allow_inf_nan", "max_digits", "decimal_places", "frozen", "alias", "validation_alias", "serialization_alias", "exclude")
 
@@ -398,7 +401,8 @@ def model_decl(index, models, ci):
                           "constraints": {k: _const_of(v) for k, v in f.field_kwargs.items() if k in CONSTRAINT_KEYS},
                           "default": None if f.default is None else _const_of(f.default),
                           "factory": None if f.default_factory is None else ast.unparse(f.default_factory)}
-    return {"config": cfg, "fields": fields}
+    protocol = sorted(n for n in ci.methods if n in PROTOCOL_METHODS)
+    return {"config": cfg, "fields": fields, "protocol": protocol}
 
 
 def module_constants(m):
@@ -438,6 +442,35 @@ def check_declarations(ctx: Ctx, files: List[str]):
         return
     index, models = ctx.index, ctx.models
     mods = [m for m in index.modules.values() if m.relpath in files]
+    # what the anchored code is built on: the package modules it imports names from (one hop) -- a declaration changed there
+    # (a default of a shared helper, a model's config, a constant) changes the anchored behaviour although its text is untouched
+    seen_m = {m.name for m in mods}
+    for m in list(mods):
+        for st in ast.walk(m.tree):
+            tm = None
+            if isinstance(st, ast.ImportFrom) and st.module and st.level == 0 and st.module.startswith("soundevent"):
+                for a in st.names:
+                    cand = index.modules.get(f"{st.module}.{a.name}")
+                    if cand is not None and cand.name not in seen_m:
+                        seen_m.add(cand.name)
+                        mods.append(cand)
+                tm = index.modules.get(st.module)
+            elif isinstance(st, ast.Import):
+                for a in st.names:
+                    if a.name.startswith("soundevent"):
+                        tm = index.modules.get(a.name)
+            if tm is not None and tm.name not in seen_m:
+                seen_m.add(tm.name)
+                mods.append(tm)
+    # package __init__ modules only re-export: follow them to where the imported names are defined
+    for m in list(mods):
+        if m.relpath.endswith("__init__.py"):
+            for st in m.tree.body:
+                if isinstance(st, ast.ImportFrom) and st.module and st.level == 0 and st.module.startswith("soundevent"):
+                    tm = index.modules.get(st.module)
+                    if tm is not None and tm.name not in seen_m:
+                        seen_m.add(tm.name)
+                        mods.append(tm)
     # one hop: model classes named in the annotations of the public functions of the anchor files
     extra_classes = {}
     n_f = n_m = 0
@@ -570,6 +603,13 @@ def check_declarations(ctx: Ctx, files: List[str]):
                 problems.append((line, f"{fname} default = {_show_json(cf['default'])}",
                                  f"the default of {ci.name}.{fname} is {_show_json(cf['default'] if cf['factory'] is None else cf['factory'])} where the reference "
                                  f"declares {_show_json(rf['default'] if rf['factory'] is None else rf['factory'])}"))
+        if sorted(cur.get("protocol", [])) != sorted(r.get("protocol", [])):
+            added = sorted(set(cur.get("protocol", [])) - set(r.get("protocol", [])))
+            gone = sorted(set(r.get("protocol", [])) - set(cur.get("protocol", [])))
+            problems.append((ci.node.lineno, f"{ci.name}: {'+' + ', +'.join(added) if added else ''}{' -' + ', -'.join(gone) if gone else ''}",
+                             f"{ci.name} {'now defines ' + ', '.join(added) if added else ''}{' and ' if added and gone else ''}{'no longer defines ' + ', '.join(gone) if gone else ''}: "
+                             f"how its instances compare, hash, test true, iterate or are constructed differs from the reference -- every presence test, "
+                             f"set / dict membership and equality check on them is affected"))
         for line, construct, msg in problems:
             ctx.bad("G.5", ci.module.relpath, ci.name, construct, msg, line)
         if not problems:
